@@ -29,6 +29,7 @@ RULE = ('case = one accepted generated document and a history of 3..12 (thorough
         'claimed flags, the structural digest with attribution and the M3 verdict must equal the snapshot taken before the call; '
         'additionally a call that must be refused (attached node) must raise. Non-trivial = the driver made the call with an invalid '
         'argument; distinct = hash(text, op log).')
+RULE += (' Also (rounds 8-12): special refusals ancestor-offered (known finding), consumed expression as receiver of in-place operators / value=, constructor given an attached value, whole-list assignment of a list attached elsewhere (the offered list object must still belong to its model after the refusal).')
 ASSUMPTIONS = ['only exceptions escaping the outermost API call are judged',
                'damage to free-standing donor nodes (never part of a document) is recorded as a diagnostic, not a verdict']
 KF_WHOLE_STORE = 'whole-store-child-accepted'
